@@ -23,8 +23,10 @@ def gen_cases(ctx):
                 for rk in ('single', 'batch', 'notification', 'notifbatch'):
                     for tctx in ('default', 'supplied'):
                         for kind in ('sync', 'async'):
-                            for via in ('call', 'send'):
-                                if via == 'send' and (T != 2 or tctx != 'supplied'):
+                            for via in ('call', 'send', 'dunder', 'proxy'):
+                                if via != 'call' and (T != 2 or tctx != 'supplied'):
+                                    continue
+                                if via in ('dunder', 'proxy') and rk not in ('single', 'batch'):
                                     continue
                                 if n is not None and n >= 4 and (T not in (1, 3) or rk == 'notifbatch'):
                                     continue
